@@ -133,7 +133,7 @@ Definition ext_multi (k : N) (uncs : list bool) : ext :=
         (Some (mkSD (1 + k) (k + 1) (1 + k) (n + 2) n)) tl_new 0.
 
 Definition ext_multi_a (k n : N) : ext :=
-  mkExt (num_cost k n + 33 * n + (n - 1) + 1) true 0
+  mkExt (script_num_size k + 33 * n + n + 1) true 0   (* since /repo c854851b: n is not pushed *)
         (Some (mkSD ((n - k) + 66 * k) n 0 2 0))
         (Some (mkSD n n 0 2 0)) tl_new 0.
 
@@ -463,7 +463,7 @@ Definition ext_fits (e : ext) : bool :=
   && osd_fits (sat_data e) && osd_fits (dissat_data e).
 Definition checked (e : ext) : xout := if ext_fits e then XOk e else XPanic.
 Definition ext_multi_a_o (k n : N) : xout :=
-  if (n =? 0) || (n <? k) then XPanic else checked (ext_multi_a k n).
+  if n <? k then XPanic else checked (ext_multi_a k n).
 (* `pk_cost + n - 1`: the intermediate sum is checked as well *)
 Definition ext_threshold_o (k : N) (subs : list ext) : xout :=
   match subs with
